@@ -206,7 +206,16 @@ func runC09(c *fw.Ctx) {
 	}
 	mk := func(k *fw.K, s []int) (tensor.Tensor, *ref.T) {
 		x := Shuffled(k.Rng, Unique(k.Rng, s, 0.2, 2))
-		return rt.MustLeaf(x, k.Rng.Intn(2) == 0), x
+		if k.Rng.Intn(2) == 0 { // an untracked receiver that is the RESULT of earlier operations; the 16 provenances are cycled through
+			sel := k.Index + k.Rng.Intn(16)
+			if len(s) >= 3 && k.Rng.Intn(2) == 0 {
+				sel = 14 // reducer results of rank 3 and 4 are the ones whose shape slice has spare capacity
+			}
+			if t, err := rt.LeafProv(x, sel); err == nil && t != nil {
+				return t, x
+			}
+		}
+		return rt.MustLeaf(x, true), x
 	}
 
 	// ---------- constructors ----------
@@ -287,7 +296,7 @@ func runC09(c *fw.Ctx) {
 					lists = append(lists, []int{a, b})
 				}
 			}
-			for q := 0; q < c.Pick(60, 400); q++ {
+			for q := 0; q < c.Pick(60, 1200); q++ {
 				l := make([]int, 3+k.Rng.Intn(3))
 				for i := range l {
 					l[i] = c09Ints[k.Rng.Intn(len(c09Ints))]
@@ -459,7 +468,7 @@ func runC09(c *fw.Ctx) {
 	}
 
 	// ---------- BackPropagate over generated VALID graphs (the C01 program generator): nil error, no panic, from the root and then from a random node ----------
-	for i := 0; i < c.Pick(1500, 30000); i++ {
+	for i := 0; i < c.Pick(1500, 90000); i++ {
 		c.Case(func(k *fw.K) {
 			p, _ := genProgram(k.Rng, progOpts{MinInstr: 2, MaxInstr: 12, MaxLeaves: 3, MaxRank: 3, MaxDim: 3})
 			root := len(p) - 1
@@ -503,7 +512,7 @@ func c09Constructors(k *fw.K, c *fw.Ctx) {
 			lists = append(lists, []int{a, b})
 		}
 	}
-	for q := 0; q < c.Pick(400, 3000); q++ {
+	for q := 0; q < c.Pick(400, 9000); q++ {
 		l := make([]int, 3+k.Rng.Intn(3))
 		for i := range l {
 			l[i] = c09Ints[k.Rng.Intn(len(c09Ints))]
@@ -763,7 +772,7 @@ func c09SlicePatch(k *fw.K, c *fw.Ctx, t tensor.Tensor, x *ref.T) {
 		if n == 1 || (n == 2 && len(s) <= 2) {
 			lists = append(lists, indexLists2(n, all)...)
 		} else {
-			for q := 0; q < c.Pick(150, 1500); q++ {
+			for q := 0; q < c.Pick(150, 4500); q++ {
 				l := make([]ref.Range, n)
 				for i := range l {
 					l[i] = all[k.Rng.Intn(len(all))]
